@@ -625,6 +625,10 @@ func (i *indexedTableRefIter) Next(rec record) (bool, error) {
 
 // RefsFor iterates over refs that point to `oid`.
 func (r *Reader) RefsFor(oid []byte) (*Iterator, error) {
+	if !r.offsets[blockTypeRef].Present {
+		// No ref section (an empty table, or one with only a log).
+		return &Iterator{&emptyIterator{}}, nil
+	}
 	if r.offsets[blockTypeObj].Present {
 		return r.refsForIndexed(oid)
 	}
